@@ -1344,7 +1344,7 @@ ChangeQueryFilterCallback(DataNode & node, void * ud)
    ConstMessageRef constMsg2 = node.GetData();
    const bool oldMatches = ((constMsg1() == NULL)||(oldFilter == NULL)||(oldFilter->Matches(constMsg1, &node)));
    const bool newMatches = ((constMsg2() == NULL)||(newFilter == NULL)||(newFilter->Matches(constMsg2, &node)));
-   if (oldMatches != newMatches) NodeChangedAux(node, constMsg2, oldMatches?NodeChangeFlags(NODE_CHANGE_FLAG_ISBEINGREMOVED):NodeChangeFlags());
+   if ((oldMatches != newMatches)&&(_subscriptions.GetMatchCount(node, constMsg2(), 0) <= (oldMatches?1U:0U))) NodeChangedAux(node, constMsg2, oldMatches?NodeChangeFlags(NODE_CHANGE_FLAG_ISBEINGREMOVED):NodeChangeFlags());  // (the entry being changed still holds its old filter here)
    return node.GetDepth();  // continue traversal as usual
 }
 
